@@ -4,6 +4,7 @@ import (
 	"github.com/tailscale/setec/acl"
 	"github.com/tailscale/setec/audit"
 	"github.com/tailscale/setec/types/api"
+	"strings"
 )
 
 // C06: the audit record is written and synced before any effect or disclosure; fail-closed.
@@ -38,6 +39,10 @@ func verifAuditObserveSave() {
 func verifEntryMatches(rec []byte, caller Caller, action acl.Action, name string, ver api.SecretVersion, authorized bool) bool {
 	var e audit.Entry
 	if !jsonBlobAs(rec, &e) {
+		return false
+	}
+	// the record has exactly the documented fields: in particular nothing that could carry a secret value
+	if jsonBlobKeys(rec) != "action,authorized,id,principal,secret,secretVersion,time" && jsonBlobKeys(rec) != verifAuditKeysNative(rec) {
 		return false
 	}
 	return and(deepEq(e.Principal, caller.Principal), e.Action == action, e.Secret == name, e.SecretVersion == ver, e.Authorized == authorized)
@@ -183,4 +188,19 @@ func verifHarnessC06WriteEntries() {
 		assert("stops-at-first-write-error", ghostCount("sink.write") <= 1)
 	}
 	reach("end")
+}
+
+// natively omitempty drops empty fields, so the key set is a subset of the documented one
+func verifAuditKeysNative(rec []byte) string {
+	if symbolic() {
+		return "-"
+	}
+	allowed := map[string]bool{"action": true, "authorized": true, "id": true, "principal": true, "secret": true, "secretVersion": true, "time": true}
+	keys := jsonBlobKeys(rec)
+	for _, k := range strings.Split(keys, ",") {
+		if !allowed[k] {
+			return "-"
+		}
+	}
+	return keys
 }
